@@ -24,6 +24,7 @@ func init() {
 			{"C07.err-is-error", "a branch taken because ctx.Err() is non-nil never ends in a nil error", 0, c07ErrIsError},
 			{"C07.loops-observe-ctx", "each long-running entry point reaches a ctx.Done() receive within call depth 3", 10, c07LoopsObserve},
 			{"C07.cli", "signal handler cancels the root context that every command receives; Execute error exits non-zero", 4, c07Cli},
+			{"C07.side-goroutine-errors", "the error a bare goroutine leaves in a variable of its starter is consulted before success is reported", 3, func(c *Ctx) { c.sideGoroutineErrors(func(string) bool { return true }) }},
 			{"C07.tmp-rename", "rename of the temp file only on the nil edge of assembly; temp in the same directory; deferred removal", 3, c07TmpRename},
 		},
 	})
@@ -409,7 +410,9 @@ func c07TmpRename(c *Ctx) {
 		"os.Rename onto the destination is reachable although the assembly call failed or was interrupted")
 	// destination is the name parameter, source is the temp file
 	a := rn.Common().Args
-	c.verdict(onlyOrigins(a[1], func(o string) bool { return o == "param:name" }) && hasOrigin(a[0], func(o string) bool { return strings.Contains(o, "tempfile.File).Name") || strings.Contains(o, "os.File).Name") }),
+	c.verdict(onlyOrigins(a[1], func(o string) bool { return o == "param:name" }) && hasOrigin(a[0], func(o string) bool {
+		return strings.Contains(o, "tempfile.File).Name") || strings.Contains(o, "os.File).Name")
+	}),
 		"cmd.writeWithTmpFile:rename-args", rn.Pos(), "rename(temp.Name(), name)", fmt.Sprintf("rename arguments are not (temp file, destination): %v -> %v", origins(a[0]), origins(a[1])))
 	// temp file in filepath.Dir(name)
 	tmpOK := false
